@@ -99,10 +99,97 @@ class Calls(object):
                     f = cx.func("call_obj_%d" % len(args), *([cx.Obj] * (len(args) + 2)))
                     return SV(f(fe, *[a.e for a in args]), TObj())
                 raise Outside("call of local callable %s" % nm)
+            hd = self.fx.session.find_def(self.fx.module, nm) if not ev.spec else None
+            if hd is not None:
+                return self.inline(ev, hd, node, st)
             raise Outside("call of unknown function %s" % nm)
         if isinstance(f, ast.Attribute):
             return self.method(ev, node, st)
         raise Outside("call of computed function")
+
+    # ------------------------------------------------------------------ helpers without contract: inlined
+    def inline(self, ev, fdef, node, st):
+        """a module-level function of the SAME file that has no contract is executed in place (its body is the code that runs): loop-free,
+        positional / keyword parameters with constant defaults, no recursion.  Its exceptions are the caller's, its return values are merged."""
+        from .state import merge_states
+        fx = self.fx
+        ex = fx.executor
+        stack = getattr(self, "_inline_stack", [])
+        if fdef.name in stack or len(stack) >= 3 or fdef is fx.fdef:
+            raise Outside("recursive helper %s" % fdef.name)
+        a = fdef.args
+        if a.vararg or a.kwarg or a.kwonlyargs or a.posonlyargs or fdef.decorator_list:
+            raise Outside("helper %s: signature outside the subset" % fdef.name)
+        for n in ast.walk(fdef):
+            if isinstance(n, (ast.Yield, ast.YieldFrom, ast.For, ast.While, ast.Global, ast.Nonlocal, ast.Try, ast.With, ast.Lambda)) \
+                    or (isinstance(n, (ast.FunctionDef, ast.ClassDef)) and n is not fdef):
+                raise Outside("helper %s without contract has loops / generators / nested definitions" % fdef.name)
+        if ev.guards:
+            raise Outside("helper %s called under a short-circuit" % fdef.name)
+        params = [p.arg for p in a.args]
+        vals = {}
+        if any(isinstance(x, ast.Starred) for x in node.args) or len(node.args) > len(params):
+            raise Outside("helper %s: call shape" % fdef.name)
+        for p_, x in zip(params, node.args):
+            vals[p_] = ev.ev(x, st)
+        for kw in node.keywords:
+            if kw.arg is None or kw.arg not in params or kw.arg in vals:
+                raise Outside("helper %s: call shape" % fdef.name)
+            vals[kw.arg] = ev.ev(kw.value, st)
+        defaults = dict(zip(params[len(params) - len(a.defaults):], a.defaults))
+        for p_ in params:
+            if p_ not in vals:
+                d = defaults.get(p_)
+                if d is None or not isinstance(d, ast.Constant):
+                    raise Outside("helper %s: missing argument / non-constant default" % fdef.name)
+                vals[p_] = ev.ev(d, st)
+        for v in vals.values():
+            if v.meta and v.meta.get("empty_literal"):
+                raise Outside("helper %s: untyped empty literal argument" % fdef.name)
+        saved_types, saved_exc, saved_loop = fx.types, ev.exc_out, ex.loop_ord
+        inner = st.fork()
+        inner.env = dict(vals)
+        caller_env = st.env
+        fx.types = {}
+        ev.exc_out = []
+        self._inline_stack = stack + [fdef.name]
+        try:
+            outs = ex.block(fdef.body, inner)
+        finally:
+            fx.types = saved_types
+            self._inline_stack = stack
+            ex.loop_ord = saved_loop
+        ev.exc_out = saved_exc
+        rets = []
+        for o in outs:
+            if o.kind == "raise":
+                o.st.env = dict(caller_env)
+                ev.exc_out.append(o)
+            elif o.kind in ("return", "normal"):
+                rets.append((o.st, o.val if o.kind == "return" and o.val is not None else SV(None, TNone())))
+            else:
+                raise Outside("helper %s: outcome %s" % (fdef.name, o.kind))
+        if not rets:
+            st.pc.append(z3.BoolVal(False))    # the helper never returns
+            return SV(None, TNone())
+        ts = [v.t for _, v in rets]
+        nn = [t for t in ts if not isinstance(t, TNone)]
+        if not nn:
+            rt = None
+        else:
+            base = nn[0].inner if isinstance(nn[0], TOpt) else nn[0]
+            for t in nn:
+                if (t.inner if isinstance(t, TOpt) else t) != base:
+                    raise Outside("helper %s returns values of different types: %s" % (fdef.name, ts))
+            rt = TOpt(base) if (len(nn) < len(ts) or any(isinstance(t, TOpt) for t in nn)) and not isinstance(base, (TVal, TObj)) else base
+        states = []
+        for s_, v in rets:
+            s_.env = {} if rt is None else {"$ret": ev.coerce(v, rt, "return value of %s" % fdef.name)}
+            states.append(s_)
+        merged = merge_states(states)
+        st.pc = list(merged.pc)
+        st.heap = dict(merged.heap)
+        return SV(None, TNone()) if rt is None else merged.env["$ret"]
 
     # ------------------------------------------------------------------ spec functions
     def _args(self, ev, node, st):
